@@ -89,6 +89,9 @@ class Kernel:
         self.sigchld_deliveries = 0
         self.max_batch = 0
         self.lost_candidates = 0
+        self.wakeup_fd = -1          # signal.set_wakeup_fd(): written by the C-level handler when a signal ARRIVES
+        self.c_handled = False       # a SIGCHLD whose C-level handler has run but whose Python handler has not yet
+        self.read_races = 0
         self._real = {}
 
     def add_unrelated(self, scripts):
@@ -131,6 +134,11 @@ class Kernel:
         p.status = st
         p.t_exit = self.ev("exit", pid=p.pid, task=p.task, status=st)
         self.pending = True
+        if self.wakeup_fd >= 0:
+            try:
+                os.write(self.wakeup_fd, bytes([int(signal.SIGCHLD)]))
+            except OSError:
+                pass
 
     def _pick(self, cands, k):
         order = self.st.get("order", "random")
@@ -184,7 +192,7 @@ class Kernel:
             return
         run = self.running()
         if not run:
-            self.deadlock = {"blocked_in": what, "t": self.t,
+            self.deadlock = {"blocked_in": what, "t": self.t, "sigchld_taken_by_C_handler_before_the_blocking_read": self.c_handled,
                              "zombies": [p.pid for p in self.procs.values() if p.state == "zombie"],
                              "reaped_by_pid_wait": [[p.pid, p.task] for p in self.procs.values() if p.state == "reaped" and p.reaped_by != -1]}
             self.ev("deadlock", **self.deadlock)
@@ -201,6 +209,9 @@ class Kernel:
         """Run the registered SIGCHLD handler if a SIGCHLD is pending (never nested)."""
         if not self.is_main() or self.in_handler:
             return
+        if self.c_handled:
+            self.c_handled = False
+            self.pending = True
         while self.pending:
             self.pending = False
             h = signal.getsignal(signal.SIGCHLD)
@@ -355,7 +366,16 @@ class Kernel:
         real = self._real["read"]
         if not self.is_main() or self.in_handler:
             return real(fd, n)
+        had_pending = self.pending
         self.enter("read")
+        if (not had_pending) and self.pending and self.rng.random() < self.st.get("p_race_read", 0.0):
+            # The child exited after the interpreter's last eval-breaker check and before the read system
+            # call was entered: the C-level signal handler has already run (flag set, wakeup fd written),
+            # so the system call is NOT interrupted; the Python-level handler only runs once read() returns.
+            self.pending = False
+            self.c_handled = True
+            self.read_races += 1
+            self.ev("sigchld_arrived_just_before_read_syscall")
         while True:
             try:
                 po = select.poll()
@@ -426,6 +446,14 @@ class Kernel:
                 continue
             if hasattr(os, name):
                 setattr(os, name, flag("os." + name, getattr(os, name)))
-        for name in ("sigwait", "sigwaitinfo", "sigtimedwait", "pidfd_send_signal", "set_wakeup_fd"):
+        real_set_wakeup_fd = signal.set_wakeup_fd
+
+        def set_wakeup_fd(fd, **kw):
+            self.ev("set_wakeup_fd", fd=fd)
+            self.wakeup_fd = fd
+            return real_set_wakeup_fd(fd, **kw)
+
+        signal.set_wakeup_fd = set_wakeup_fd
+        for name in ("sigwait", "sigwaitinfo", "sigtimedwait", "pidfd_send_signal"):
             if hasattr(signal, name):
                 setattr(signal, name, flag("signal." + name, getattr(signal, name)))
